@@ -226,7 +226,9 @@ Spell(v) ==
         <<[k |-> "first", c |-> <<"FOO", "[", "]">>]>>>>
     [] v = "holo" -> <<<<[k |-> "first", c |-> <<"[", "\"x\"", "U2227", "REQ", "U2192", "U00A7", "T", "]">>]>>,
         <<[k |-> "first", c |-> <<"[", "\"x\"", "&", "REQ", "->", "#", "T", "]">>]>>,
-        <<[k |-> "first", c |-> <<"[", " ", "\"x\"", " ", "U2227", " ", "REQ", " ", "U2192", " ", "U00A7", "T", " ", "]">>]>>>>
+        <<[k |-> "first", c |-> <<"[", " ", "\"x\"", " ", "U2227", " ", "REQ", " ", "U2192", " ", "U00A7", "T", " ", "]">>]>>,
+        <<[k |-> "first", c |-> <<"[">>], [k |-> "rel", c |-> <<"  ", "\"x\"", "&", "REQ", "->", "#", "T">>], [k |-> "rel", c |-> <<"]">>]>>,
+        <<[k |-> "first", c |-> <<"[">>], [k |-> "rel", c |-> <<"    ", "\"x\"", "U2227", "REQ", "U2192", "U00A7", "T">>], [k |-> "rel", c |-> <<"  ", "]">>]>>>>
     [] v = "holoenum" -> <<<<[k |-> "first", c |-> <<"[", "\"a\"", "U2227", "ENUM", "[", "a", ",", "b", "]", "]">>]>>,
         <<[k |-> "first", c |-> <<"[", "\"a\"", "&", "ENUM", "[", "a", ",", "b", "]", "]">>]>>>>
     [] v = "l0" -> <<<<[k |-> "first", c |-> <<"[", "]">>]>>,
